@@ -14,7 +14,7 @@ Public API
     raises ``RefDecline(reason)`` when the documentation does not determine the outcome (or a size bound of
     the harness is exceeded): the case must not be judged.
 ``static_check(node)``
-    raises ``RefDecline`` when a *constant* sub-expression (one the optimizer may fold at compile time even if
+    raises ``RefExcluded`` for the input class of a listed known finding and ``RefDecline`` when a *constant* sub-expression (one the optimizer may fold at compile time even if
     it is never evaluated at run time) exceeds the magnitude bounds (known finding F19: never executed).
 ``RefUndefined``
     reference model of the default ``Undefined`` (documented table: str '' / iteration empty / false / len 0 /
@@ -46,6 +46,14 @@ class RefError(Exception):
 
 class RefDecline(Exception):
     """The documented semantics does not decide this case (or a harness bound is exceeded)."""
+
+
+class RefExcluded(Exception):
+    """The tree falls in the input class of a listed known finding (args[0] = finding id)."""
+
+
+# Known findings whose input class static_check() excludes by construction; set to True when the fix is in /repo.
+F29_FIXED = True    # constant slice of a constant that cannot be sliced is folded to undefined (runtime: TypeError)
 
 
 def _undef(*_a, **_k):
@@ -872,8 +880,9 @@ def children(node):
     return _children(node)
 
 
-def static_check(node):
+def static_check(node, allow_known=False):
     """Evaluate every name-free sub-expression bottom-up under the magnitude guards.
+    Raises RefDecline (bounds) or RefExcluded (known finding F29, unless allow_known).
 
     The optimizer folds constant sub-expressions at compile time even when they are never evaluated at run
     time (``false and 9**9**9``), so bounding only the evaluated path is not enough.  Returns True when the
@@ -881,7 +890,7 @@ def static_check(node):
     kids = _children(node)
     const = True
     for c in kids:
-        if not static_check(c):
+        if not static_check(c, allow_known):
             const = False
     if node[0] == "name":
         return False
@@ -889,5 +898,6 @@ def static_check(node):
         try:
             eval_expr(node, {})
         except RefError:
-            pass
+            if node[0] == "slice" and not F29_FIXED and not allow_known:
+                raise RefExcluded("F29") from None
     return const
